@@ -93,6 +93,34 @@ def run_corpus(tag="corpus"):
     return probs, rdir, detail
 
 
+def strip_refs(t):
+    while isinstance(t, tuple) and t and t[0] in ("addr", "deref"):
+        t = t[1]
+    return t
+
+
+def same_place(a, b):
+    """Equal up to reference / dereference wrappers (a closure sees `&x` where a loop body sees `x`)."""
+    return strip_refs(a) == strip_refs(b) or ms.show(a).replace("&", "").replace("*", "") == ms.show(b).replace("&", "").replace("*", "")
+
+
+def inserted(p, E):
+    """(key, value) pairs this iteration adds to the map being built: IndexMap::insert(map, k, v) of a loop body, or the
+    (k, v) item a map/filter pipeline hands to collect()."""
+    out = []
+    for e in p.calls():
+        if e[1] == "IndexMap::insert":
+            out.append((e[2][1], e[2][2]))
+        elif e[1] == "collect::item":
+            out.append((ms.proj(e[2][1], ("f", 0), E), ms.proj(e[2][1], ("f", 1), E)))
+    return out
+
+
+def pushed(p):
+    """Values this iteration appends to the vector being built: Vec::push(vec, x) or the item handed to collect()."""
+    return [e[2][1] for e in p.calls() if e[1] in ("Vec::push", "collect::item")]
+
+
 def struct_fields(M, struct):
     for f in M.funcs:
         for b in f.blocks.values():
@@ -250,18 +278,18 @@ def check():
             cond = S.pc(p.pc)
             nx = [e for e in p.calls() if e[1].endswith("Iterator::next")]
             mi = p.calls("Builder::maybe_inline")
-            ins = [e for e in p.calls() if e[1] == "IndexMap::insert"]
+            ins = inserted(p, E)
             if len(nx) != 1 or len(mi) != 1:
                 structural("all_components: each entry is tested with maybe_inline once", False)
                 continue
             name = ms.proj(ms.proj(ms.proj(nx[0][3], ("v", "Some"), E), ("f", 0), E), ("f", 0), E)
             none = S.disc(S.v(mi[0][3])) == 0
-            structural("all_components: maybe_inline is asked about the entry's own name", mi[0][2][1] == name)
+            structural("all_components: maybe_inline is asked about the entry's own name", same_place(mi[0][2][1], name))
             if ins:
                 n_ins += 1
                 L.expect_unsat("all_components: an entry is registered only when maybe_inline(name) is None", cond + [z3.Not(none)], on_sat)
                 unt = p.calls("Ident::untagged")
-                structural("all_components: the component key is untagged(name)", len(unt) == 1 and unt[0][2] == (name,) and ins[0][2][1] == unt[0][3])
+                structural("all_components: the component key is untagged(name)", len(unt) == 1 and same_place(unt[0][2][0], name) and ins[0][0] == unt[0][3])
             else:
                 n_skip += 1
                 L.expect_unsat("all_components: an entry is skipped only when maybe_inline(name) is Some", cond + [none], on_sat)
@@ -272,7 +300,7 @@ def check():
 
     # (3) path key and path parameters from the same URI
     try:
-        f_ap = M.one(r"::all_paths::\{closure#0\}$")
+        f_ap = M.one(r"::all_paths$")
         f_rpi = M.one(r"::relation_path_item$")
         f_up = M.one(r"::uri_params$")
         f_ppp = M.one(r"::prop_path_param$")
@@ -283,16 +311,25 @@ def check():
         o.functions.extend(mirlib.func_ref(f, "oal-openapi") for f in (f_ap, f_rpi, f_up, f_ppp, f_ppd))
         o.functions.extend(mirlib.func_ref(f, "oal-compiler") for f in (f_pw, f_pat, f_patc))
         ex = mirlib.executor([M])
-        for p in ex.run(f_ap):
-            if p.kind != "return":
+        n_item = 0
+        for p in ex.run(f_ap, arg_names=["self"]):
+            if p.kind != "backedge":
                 continue
+            items = inserted(p, E)
+            if not items:
+                continue
+            n_item += 1
+            nx = [e for e in p.calls() if e[1].endswith("Iterator::next")]
+            rel = ms.proj(ms.proj(nx[-1][3], ("v", "Some"), E), ("f", 0), E)
             pat = p.calls("Uri::pattern")
             rpi = p.calls("Builder::relation_path_item")
-            rel = ("sym", f_ap.debug.get(f_ap.args[1][0], "arg2"))
-            uri = ("addr", ms.proj(("deref", rel), ("f", 0), E))
-            okp = len(pat) == 1 and len(rpi) == 1 and pat[0][2] == (uri,) and rpi[0][2][1] == rel and \
-                ms.proj(p.ret, ("f", 0), E) == pat[0][3] and any(t == rpi[0][3] for t in ms.subterms(ms.proj(p.ret, ("f", 1), E)))
+            okp = len(items) == 1 and len(pat) == 1 and len(rpi) == 1 and same_place(rpi[0][2][1], rel) and \
+                ms.show(strip_refs(pat[0][2][0])).replace("*", "").replace("&", "").startswith(ms.show(strip_refs(rel)).replace("*", "").replace("&", "")) and \
+                items[0][0] == pat[0][3] and any(t == rpi[0][3] for t in ms.subterms(items[0][1]))
             structural("all_paths: key = rel.uri.pattern(), item = relation_path_item(rel) of the same relation", okp)
+        if n_item == 0:
+            o.inconc("all_paths: no iteration adds a path item")
+        mirlib.check_translator(o, ex, "all_paths")
         pif = struct_fields(M, "PathItem")
         ex = mirlib.executor([M])
         outs = ex.run(f_rpi, arg_names=["self", "rel"])
@@ -313,22 +350,28 @@ def check():
         ex = mirlib.executor([M])
         outs = ex.run(f_up, arg_names=["self", "uri"])
         mirlib.check_translator(o, ex, "uri_params")
-        heads = sorted({p.info["head"] for p in outs if p.kind == "backedge"})
         nvar = nlit = 0
         for p in outs:
-            if p.kind != "backedge" or p.info["head"] != heads[0]:
+            if p.kind != "backedge":
                 continue
             nx = [e for e in p.calls() if e[1].endswith("Iterator::next")]
-            seg = ex.raw_deref(p.state, ms.proj(ms.proj(nx[0][3], ("v", "Some"), E), ("f", 0), E))
+            if not nx:
+                continue
+            # the iterations over the path segments: the element's variant (Variable / Literal) is what the path forks on
+            seg = ex.raw_deref(p.state, ms.proj(ms.proj(nx[-1][3], ("v", "Some"), E), ("f", 0), E))
+            segs = [a for a, op, v in p.pc if a[0] == "disc" and strip_refs(a[1]) == strip_refs(seg)]
+            if not segs:
+                continue
             cond = S.pc(p.pc)
-            pushes = [e for e in p.calls() if e[1] == "Vec::push"]
+            pushes = pushed(p)
             ppp = p.calls("Builder::prop_path_param")
-            isvar = S.disc(S.v(seg)) == E.index("UriSegment", "Variable")
+            isvar = S.disc(S.v(segs[0][1])) == E.index("UriSegment", "Variable")
+            seg = segs[0][1]
             if pushes:
                 nvar += 1
                 L.expect_unsat("uri_params: a path parameter is pushed only for a Variable segment", cond + [z3.Not(isvar)], on_sat)
                 prop = ("addr", ex.raw_deref(p.state, ms.proj(ms.proj(seg, ("v", "Variable"), E), ("f", 0), E)))
-                okp = len(pushes) == 1 and len(ppp) == 1 and ppp[0][2][1] == prop and any(t == ppp[0][3] for t in ms.subterms(pushes[0][2][1]))
+                okp = len(pushes) == 1 and len(ppp) == 1 and same_place(ppp[0][2][1], prop) and any(t == ppp[0][3] for t in ms.subterms(pushes[0]))
                 structural("uri_params: exactly one Parameter (prop_path_param of that segment's property) per Variable segment", okp)
             else:
                 nlit += 1
